@@ -219,6 +219,12 @@ def check_real_thread(ck, n):
             alive_seen.append(v)
             return v
         swt._SubprocessThread.is_alive = spy
+        orig_join_fn = swt._join_with_keep_alive
+
+        def join_spy(*a, **kw):
+            layer.in_join.set()
+            return orig_join_fn(*a, **kw)
+        swt._join_with_keep_alive = join_spy
         end = None
         ret = None
         t_start = time.time()
@@ -234,6 +240,7 @@ def check_real_thread(ck, n):
                 K.release(layer)
         finally:
             swt._SubprocessThread.is_alive = orig_alive
+            swt._join_with_keep_alive = orig_join_fn
         wall = time.time() - t_start
         tree = holder.get('tree')
         inp = {'mode': mode, 'timeout': timeout, 'tree': tree}
@@ -348,13 +355,14 @@ def real_scenario(ck, idx, kind, depth, fanout, limit, ignore, which, results):
         lim = limit
     else:
         # the signal arrives while BH runs; `which` = 2 puts a normal invocation before it
-        benchmarks = [('BH', 'hang', depth, fanout)]
+        benchmarks = [('BH', 'hang2' if which == 2 else 'hang', depth, fanout)]
         lim = -1 if limit is None else limit
-    conf = K.write_real_scenario(wd, benchmarks, lim, ignore)
+    conf = K.write_real_scenario(wd, benchmarks, lim, ignore, invocations=2 if which == 2 else 1)
     expected_nodes = K.node_count(depth, fanout)
     sess = K.RealSession(wd, conf)
     log = os.path.join(wd, 'BH.log')
-    res = {'kind': kind, 'depth': depth, 'fanout': fanout, 'limit': lim, 'ignore_timeouts': ignore, 'idx': idx}
+    res = {'kind': kind, 'depth': depth, 'fanout': fanout, 'limit': lim, 'ignore_timeouts': ignore, 'idx': idx,
+           'signal_at_invocation': which}
     try:
         def ready():
             pids, marks = K.read_log(log)
@@ -415,8 +423,10 @@ def check_real(ck, plans):
         if 'infra' in res:
             raise lib.InfraError('real-process scenario failed to run: %s' % res['infra'])
         kind = res['kind']
-        inp = dict((k, res[k]) for k in ('kind', 'depth', 'fanout', 'limit', 'ignore_timeouts'))
+        inp = dict((k, res[k]) for k in ('kind', 'depth', 'fanout', 'limit', 'ignore_timeouts', 'signal_at_invocation'))
         ck.count('real:%s depth=%d' % (kind, res['depth']))
+        if kind != 'timeout':
+            ck.count('real: signal during invocation %d' % res['signal_at_invocation'])
         ck.impl_traces += 1
         ck.case(nontrivial_key=('real', res['idx'], kind, res['depth'], res['fanout']),
                 sample={'kind': kind, 'processes': len(res['pids']), 'alive_afterwards': len(res['alive']),
@@ -454,7 +464,7 @@ def real_plans(rng, n, kinds=('timeout', 'INT', 'TERM')):
         d, f = shapes[i % len(shapes)] if i < len(shapes) * 3 else rng.choice(shapes)
         kind = kinds[i % len(kinds)]
         plans.append((kind, d, f, rng.choice([1, 2]) if kind == 'timeout' else rng.choice([None, None, 60]),
-                      rng.random() < 0.5, 1))
+                      rng.random() < 0.5, 1 if kind == 'timeout' else rng.choice([1, 1, 2])))
     return plans
 
 
@@ -486,7 +496,7 @@ def run(ck):
     check_classification(ck, 16 if quick else 64)
     rng = ck.rng
     if quick:
-        plans = [('timeout', 2, 2, 1, True, 1), ('INT', 2, 2, None, False, 1), ('TERM', 1, 2, None, False, 1)]
+        plans = [('timeout', 2, 2, 1, True, 1), ('INT', 2, 2, None, False, 2), ('TERM', 1, 2, None, False, 1)]
     else:
         plans = real_plans(rng, 63)
     check_real(ck, plans)
@@ -510,7 +520,8 @@ def replay(ck, data):
             ck.oracle_fail('tree_all_killed', inp, {'killed': world.kills, 'missing': sorted(set(want) - set(world.kills))},
                            signature={'clause': 'tree_all_killed', 'mode': 'scripted-pgrep'})
     elif 'kind' in inp:
-        check_real(ck, [(inp['kind'], inp['depth'], inp['fanout'], inp['limit'], inp['ignore_timeouts'], 1)])
+        check_real(ck, [(inp['kind'], inp['depth'], inp['fanout'], inp['limit'], inp['ignore_timeouts'],
+                         inp.get('signal_at_invocation', 1))])
     elif inp.get('mode') in ('timeout', 'interrupt', 'finish', 'no-limit-finish', 'interrupt-with-limit'):
         check_real_thread(ck, 10)
     elif 'situation' in inp:
